@@ -4,6 +4,7 @@ package c06
 import (
 	"encoding/json"
 	"fmt"
+	"regexp"
 	"sort"
 	"strings"
 	"testing"
@@ -42,6 +43,14 @@ func membership(sa flows.SessionAssets, env envs.Environment, c *flows.Contact, 
 			continue
 		}
 		matches := g.CheckQueryBasedMembership(env, c)
+		// for groups defined by one condition on a URN property the verdict is also computed by a model written from the
+		// documented semantics (= : some value equals, != : no value equals, ~ : some value contains, "" : absence)
+		if mv, ok := urnLeafModel(g.Query(), c); ok && active && env.RedactionPolicy() != envs.RedactionPolicyURNs {
+			stats.Label("membership:urn-leaf-model")
+			if mv != matches {
+				return harn.Failf("urn-query-model", "%s: group %q (query %s): the evaluator says %v for a contact with URNs %v, the documented any/all semantics give %v", when, g.Name(), g.Query(), matches, c.URNs().RawURNs(), mv), nil
+			}
+		}
 		want := active && matches
 		state = append(state, fmt.Sprintf("%s=%v", g.Name(), in))
 		if in != want && len(alt) > 0 && active && g.CheckQueryBasedMembership(alt[0], c) != matches {
@@ -54,6 +63,37 @@ func membership(sa flows.SessionAssets, env envs.Environment, c *flows.Contact, 
 	}
 	sort.Strings(state)
 	return nil, state
+}
+
+var urnLeaf = regexp.MustCompile(`^(tel|twitter|mailto|facebook|telegram|urn) (=|!=|~) "([^"\\]*)"$`)
+
+func urnLeafModel(query string, c *flows.Contact) (bool, bool) {
+	m := urnLeaf.FindStringSubmatch(query)
+	if m == nil {
+		return false, false
+	}
+	vals := []string{}
+	for _, u := range c.URNs() {
+		if m[1] == "urn" || u.URN().Scheme() == m[1] {
+			vals = append(vals, strings.ToLower(strings.TrimSpace(u.URN().Path())))
+		}
+	}
+	q := strings.ToLower(strings.TrimSpace(m[3]))
+	if m[3] == "" && m[2] != "~" {
+		return (len(vals) == 0) == (m[2] == "="), true
+	}
+	anyEq, anyContains := false, false
+	for _, v := range vals {
+		anyEq = anyEq || v == q
+		anyContains = anyContains || strings.Contains(v, q)
+	}
+	switch m[2] {
+	case "=":
+		return anyEq, true
+	case "!=":
+		return !anyEq, true
+	}
+	return anyContains, true
 }
 
 func groupsOf(contactJSON json.RawMessage) map[string]bool {
@@ -165,10 +205,27 @@ func runModifier(c ModCase) *harn.Failure {
 	if p != nil {
 		return harn.PanicFailure("no-panic", fmt.Sprintf("applying %s", c.Modifier), p)
 	}
-	if !modified {
+	// whether the modifier was effective is decided by looking at the contact, not by trusting the returned flag
+	afterRaw, _ := json.Marshal(contact)
+	beforeRaw, _ := json.Marshal(json.RawMessage(c.Contact))
+	var bm, am any
+	_ = json.Unmarshal(beforeRaw, &bm)
+	_ = json.Unmarshal(afterRaw, &am)
+	bn, _ := json.Marshal(bm)
+	an, _ := json.Marshal(am)
+	reread, _ := flows.ReadContact(sa, c.Contact, func(assets.Reference, error) {})
+	if reread != nil {
+		bn, _ = json.Marshal(reread) // the same marshaller on both sides
+		_ = json.Unmarshal(bn, &bm)
+		bn, _ = json.Marshal(bm)
+	}
+	if !modified && string(bn) == string(an) {
 		// a modifier that changes nothing leaves (possibly stale) membership alone: the property speaks about effective modifiers
 		stats.Label("modifier:no-op")
 		return nil
+	}
+	if !modified {
+		stats.Label("modifier:changed-contact-but-reported-unmodified")
 	}
 	f, _ = membership(sa, env, contact, "after "+string(c.Modifier))
 	if f != nil {
@@ -211,7 +268,13 @@ func drawModifier(t *rapid.T, w *world.World) world.M {
 	case 4:
 		return M("type", "status", "status", rapid.SampledFrom([]string{"active", "blocked", "stopped", "archived"}).Draw(t, "status"))
 	case 5:
-		return M("type", "urns", "urns", []string{rapid.SampledFrom([]string{"tel:+250788123456", "twitter:bob", "mailto:bob@nyaruka.com", "tel:+12065551212"}).Draw(t, "urn")}, "modification", rapid.SampledFrom([]string{"append", "remove", "set"}).Draw(t, "urnmod"))
+		// 1-3 URNs per modifier: hosts send lists (a list whose last entry is a no-op must still count as a change)
+		pool := []string{"tel:+250788123456", "twitter:bob", "mailto:bob@nyaruka.com", "tel:+12065551212", "tel:+250788000111", "facebook:12345"}
+		urns := []string{}
+		for i, n := 0, rapid.IntRange(1, 3).Draw(t, "nurns"); i < n; i++ {
+			urns = append(urns, rapid.SampledFrom(pool).Draw(t, "urn"))
+		}
+		return M("type", "urns", "urns", urns, "modification", rapid.SampledFrom([]string{"append", "remove", "set"}).Draw(t, "urnmod"))
 	case 6:
 		return M("type", "ticket", "topic", M("uuid", world.UUID("topic", 2), "name", "Weather"), "assignee", nil, "note", "help")
 	default:
